@@ -185,11 +185,11 @@ def check(case, ctx):
     for fn, txt in files.items():
         with open(os.path.join(d, fn), 'w') as f: f.write(txt)
     try:
-        flat = Lark(flat_text, parser='lalr')
+        flat = Lark(flat_text, parser='lalr', keep_all_tokens=bool(case.get('kat')), maybe_placeholders=case.get('mp', True))
     except GrammarError:
         ctx.discard('flat grammar is not LALR / collides'); return
     try:
-        modular = Lark(main_text, parser='lalr', import_paths=[d])
+        modular = Lark(main_text, parser='lalr', import_paths=[d], keep_all_tokens=bool(case.get('kat')), maybe_placeholders=case.get('mp', True))
     except GrammarError as e:
         raise Violation('modular grammar raises GrammarError although the hand-inlined grammar builds', main=main_text, module=files['m.lark'], flat=flat_text, error=str(e)[:300])
     for w in case['texts']:
@@ -336,7 +336,9 @@ def split_cases(draw):
     gi = draw(gramgen.grammar_and_inputs(O, max_len=10, n=5))
     return {'g': gi['g'], 'texts': gi['texts'], 'pivot': draw(st.integers(0, 7)), 'rename': draw(st.integers(0, 3)) == 0,
             'clash': draw(st.one_of(st.none(), st.integers(0, 5))), 'ovr': draw(st.sampled_from([None, None, 'override', 'extend'])),
-            'ovr_pick': draw(st.integers(0, 5)), 'ovr_items': draw(st.lists(st.integers(0, 5), min_size=1, max_size=2)), 'alias_prefix': 'm__'}
+            'ovr_pick': draw(st.integers(0, 5)), 'ovr_items': draw(st.lists(st.integers(0, 5), min_size=1, max_size=2)), 'alias_prefix': 'm__',
+            # global options must reach imported definitions as well
+            'kat': draw(st.integers(0, 2)) == 0, 'mp': draw(st.integers(0, 3)) != 0}
 
 
 @st.composite
